@@ -5,6 +5,8 @@ type nat =
 | O
 | S of nat
 
+val option_map : ('a1 -> 'a2) -> 'a1 option -> 'a2 option
+
 val fst : ('a1 * 'a2) -> 'a1
 
 val snd : ('a1 * 'a2) -> 'a2
@@ -22,22 +24,40 @@ val compOpp : comparison -> comparison
 
 val add : nat -> nat -> nat
 
+val mul : nat -> nat -> nat
+
 val sub : nat -> nat -> nat
 
 module Nat :
  sig
+  val sub : nat -> nat -> nat
+
   val eqb : nat -> nat -> bool
 
   val leb : nat -> nat -> bool
 
   val ltb : nat -> nat -> bool
+
+  val divmod : nat -> nat -> nat -> nat -> nat * nat
+
+  val div : nat -> nat -> nat
+
+  val modulo : nat -> nat -> nat
  end
+
+val tl : 'a1 list -> 'a1 list
 
 val nth : nat -> 'a1 list -> 'a1 -> 'a1
 
 val nth_error : 'a1 list -> nat -> 'a1 option
 
+val removelast : 'a1 list -> 'a1 list
+
+val rev : 'a1 list -> 'a1 list
+
 val map : ('a1 -> 'a2) -> 'a1 list -> 'a2 list
+
+val flat_map : ('a1 -> 'a2 list) -> 'a1 list -> 'a2 list
 
 val fold_left : ('a1 -> 'a2 -> 'a1) -> 'a2 list -> 'a1 -> 'a1
 
@@ -50,6 +70,8 @@ val filter : ('a1 -> bool) -> 'a1 list -> 'a1 list
 val combine : 'a1 list -> 'a2 list -> ('a1 * 'a2) list
 
 val firstn : nat -> 'a1 list -> 'a1 list
+
+val seq : nat -> nat -> nat list
 
 val repeat : 'a1 -> nat -> 'a1 list
 
@@ -65,6 +87,14 @@ type z =
 
 module Pos :
  sig
+  type mask =
+  | IsNul
+  | IsPos of positive
+  | IsNeg
+ end
+
+module Coq_Pos :
+ sig
   val succ : positive -> positive
 
   val add : positive -> positive -> positive
@@ -73,11 +103,34 @@ module Pos :
 
   val pred_double : positive -> positive
 
+  type mask = Pos.mask =
+  | IsNul
+  | IsPos of positive
+  | IsNeg
+
+  val succ_double_mask : mask -> mask
+
+  val double_mask : mask -> mask
+
+  val double_pred_mask : positive -> mask
+
+  val sub_mask : positive -> positive -> mask
+
+  val sub_mask_carry : positive -> positive -> mask
+
+  val sub : positive -> positive -> positive
+
   val mul : positive -> positive -> positive
+
+  val size_nat : positive -> nat
 
   val compare_cont : comparison -> positive -> positive -> comparison
 
   val compare : positive -> positive -> comparison
+
+  val ggcdn : nat -> positive -> positive -> positive * (positive * positive)
+
+  val ggcd : positive -> positive -> positive * (positive * positive)
 
   val iter_op : ('a1 -> 'a1 -> 'a1) -> positive -> 'a1 -> 'a1
 
@@ -104,12 +157,44 @@ module Z :
 
   val compare : z -> z -> comparison
 
+  val sgn : z -> z
+
+  val leb : z -> z -> bool
+
   val ltb : z -> z -> bool
+
+  val abs : z -> z
 
   val to_nat : z -> nat
 
   val of_nat : nat -> z
+
+  val to_pos : z -> positive
+
+  val ggcd : z -> z -> z * (z * z)
  end
+
+val zeq_bool : z -> z -> bool
+
+type q = { qnum : z; qden : positive }
+
+val qeq_bool : q -> q -> bool
+
+val qle_bool : q -> q -> bool
+
+val qplus : q -> q -> q
+
+val qmult : q -> q -> q
+
+val qopp : q -> q
+
+val qminus : q -> q -> q
+
+val qinv : q -> q
+
+val qdiv : q -> q -> q
+
+val qred : q -> q
 
 type sx =
 | SZ of z
@@ -127,6 +212,10 @@ val opt_all : 'a1 option list -> 'a1 list option
 
 val dlist : (sx -> 'a1 option) -> sx -> 'a1 list option
 
+val dq : sx -> q option
+
+val dopt : (sx -> 'a1 option) -> sx -> 'a1 option option
+
 val ez : z -> sx
 
 val enat : nat -> sx
@@ -134,6 +223,8 @@ val enat : nat -> sx
 val ebool : bool -> sx
 
 val elist : ('a1 -> sx) -> 'a1 list -> sx
+
+val eq_ : q -> sx
 
 val eopt : ('a1 -> sx) -> 'a1 option -> sx
 
@@ -235,3 +326,163 @@ val run_op : st -> sx -> st * sx
 val run_ops : st -> sx list -> sx list
 
 val run_C13 : sx -> sx
+
+val prod0 : nat list -> nat
+
+val unravel : nat list -> nat -> nat list
+
+type elite = { e_index : nat; e_obj : q; e_meas : q list }
+
+type listing = elite list
+
+type geometry = { g_dims : nat list; g_boundaries : q list list;
+                  g_lower : q list; g_upper : q list;
+                  g_centroids : q list list }
+
+type world = { w_geom : geometry; w_elites : listing; w_frame : listing option }
+
+type opts = { o_df : bool; o_transpose : bool; o_vmin : q option;
+              o_vmax : q option; o_sort : bool; o_order : nat list option;
+              o_lines : bool; o_bounds : (q list * q list) option }
+
+val qnth : q list -> nat -> q
+
+val pair2 : q list -> q * q
+
+val flip2 : ('a1 * 'a1) -> 'a1 * 'a1
+
+val qmin : q -> q -> q
+
+val qmax : q -> q -> q
+
+val min_list : q list -> q option
+
+val max_list : q list -> q option
+
+val pick : q option -> q option -> q option
+
+val limits_strict : q option -> q option -> q list -> (q * q) result
+
+val c001 : q
+
+val somes : 'a1 option list -> 'a1 list
+
+val all_below : nat -> nat list -> bool
+
+val scatter : 'a1 list -> nat list -> 'a1 list -> 'a1 list
+
+val set2 : 'a1 list list -> nat -> nat -> 'a1 -> 'a1 list list
+
+val scatter2 : 'a1 list list -> (nat * nat) list -> 'a1 list -> 'a1 list list
+
+val transpose : 'a1 -> nat -> 'a1 list list -> 'a1 list list
+
+type heatmap = { hm_xb : q list; hm_yb : q list;
+                 hm_colors : q option list list; hm_xlim : (q * q);
+                 hm_ylim : (q * q) option; hm_clim : (q option * q option);
+                 hm_markers : (q * q) list }
+
+type scatterplot = { sc_offsets : (q * q) list; sc_array : q list;
+                     sc_vlines : (q * (q * q)) list;
+                     sc_hlines : (q * (q * q)) list; sc_xlim : (q * q);
+                     sc_ylim : (q * q); sc_clim : (q * q) }
+
+type voronoi = { vo_sites : (q * q) list; vo_obj : q option list;
+                 vo_t : q option list; vo_xlim : (q * q); vo_ylim : (q * q);
+                 vo_clim : (q * q) option; vo_markers : (q * q) list }
+
+type parallel = { pa_lines : q list list; pa_objs : q list; pa_t : q list;
+                  pa_ylims : (q * q) list; pa_clim : (q option * q option) }
+
+type picture =
+| PHeat of heatmap
+| PScatter of scatterplot
+| PVor of voronoi
+| PPar of parallel
+
+val heatmap_1d :
+  geometry -> q list -> q option list -> opts -> (q * q) list -> heatmap
+
+val grid2d_colors : nat -> nat -> nat list -> q list -> q option list list
+
+val grid1d_cells : nat -> nat list -> q list -> q option list
+
+val grid_heatmap : geometry -> listing -> opts -> picture result
+
+val insert_idx : q list -> nat -> nat list -> nat list
+
+val argsort : q list -> nat list
+
+val inverse_perm : nat list -> nat list
+
+val midpoints : q list -> q list
+
+val cvt1d_cells : q list -> nat list -> q list -> q option list
+
+val qclip01 : q -> q
+
+val cvt_heatmap : geometry -> listing -> opts -> picture result
+
+val sliding_heatmap : geometry -> listing -> opts -> picture result
+
+val proximity_plot : geometry -> listing -> opts -> picture result
+
+val select : 'a1 -> nat list -> 'a1 list -> 'a1 list
+
+val insert_obj : elite -> listing -> listing
+
+val sort_by_obj : listing -> listing
+
+val normalize : q -> q -> q -> q
+
+val to_axis0 : q -> q -> q -> q -> q -> q
+
+val map3 :
+  ('a1 -> 'a2 -> 'a3 -> 'a4) -> 'a1 list -> 'a2 list -> 'a3 list -> 'a4 list
+
+val normalize_row : q list -> q list -> q list -> q list
+
+val parallel_axes : geometry -> listing -> opts -> picture result
+
+type kind =
+| KGrid
+| KCvt
+| KSliding
+| KProximity
+| KParallel
+
+val source : world -> opts -> listing
+
+val draw : kind -> geometry -> listing -> opts -> picture result
+
+val plot : world -> (kind * opts) -> world * picture result
+
+val err_code0 : err -> z
+
+val dql : sx -> q list option
+
+val delite : sx -> elite option
+
+val dgeom : sx -> geometry option
+
+val dbounds : sx -> (q list * q list) option
+
+val dopts : sx -> opts option
+
+val dkind : sx -> kind option
+
+val eqq : (q * q) -> sx
+
+val eql : q list -> sx
+
+val eoq : q option -> sx
+
+val eline : (q * (q * q)) -> sx
+
+val epicture : picture -> sx list
+
+val eelite : elite -> sx
+
+val eworld : world -> sx
+
+val run_C20 : sx -> sx
